@@ -25,6 +25,22 @@ def tier():
     return os.environ.get('VERIF_TIER', 'quick')
 
 
+def scale():
+    """budget multiplier of an aimed run (the modelled source changed, or a proof/tie broke); 1 otherwise"""
+    try:
+        return max(1, int(os.environ.get('VERIF_SCALE', '1')))
+    except ValueError:
+        return 1
+
+
+def drift_literals():
+    """numeric literals of the hand-modelled functions whose text changed (old and new text), for literal-directed inputs"""
+    try:
+        return [float(x) for x in json.loads(os.environ.get('VERIF_DRIFT', '{}')).get('literals', [])]
+    except (ValueError, TypeError):
+        return []
+
+
 def fhex(x):
     return struct.pack('>d', float(x)).hex()
 
